@@ -323,6 +323,57 @@ def case_kernel_grad_simplex(**p):
   return case
 
 
+def case_kernel_grad_list(**p):
+  """Lattice (hypercube) fed with a list of per-dimension tensors, inputs anywhere in a box around the lattice (clipped):
+  d out / d kernel is a convex weight vector that does not depend on the kernel."""
+  import tensorflow as tf
+  from z3 import z3util
+  from tensorflow_lattice.python import lattice_layer as LL, lattice_lib as ll
+  case = Case(PROP, p['name'], {k: v for k, v in p.items() if k != 'name'})
+  case.encoded(LL.Lattice.call, ll.evaluate_with_hypercube_interpolation, ll._clip_onto_lattice_range)
+  sizes = list(p['sizes'])
+  rank = len(sizes)
+  layer = LL.Lattice(lattice_sizes=sizes, units=1, interpolation='hypercube', clip_inputs=True)
+  layer.build([tf.TensorShape([None, 1])] * rank)
+  n = int(np.prod(sizes))
+
+  def g(x):
+    with tf.GradientTape() as t:
+      y = tf.reshape(layer([x[:, d:d + 1] for d in range(rank)]), [-1])[0]
+    return t.gradient(y, layer.kernel)
+  tr = Traced(g, [tf.TensorSpec([1, rank], tf.float32)], name='lattice-list.kernel_grad')
+  done, mism = tr.validate(np.random.default_rng(0), n=2, gen=lambda rng, i, shp, t: rng.integers(-5, 30, size=shp) / 8.0 + 0.03125,
+                           var_shapes={layer.kernel.name: lambda r, t: core.dyadic(r, [n, 1], t)})
+  sym.new_ctx()
+  x = sym.symbolic('x', (1, rank))
+  K = sym.symbolic('k', (n, 1))
+  (grads,) = tr.sym_run(x, var_values={layer.kernel.ref(): K})
+  case.meta.update(validation_points=done, validation_mismatch=mism, ops=tr.ops_seen)
+  knames = set(str(v) for v in K.reshape(-1))
+  occurs = any(sym.is_z(gv) and any(str(v) in knames for v in z3util.get_vars(gv)) for gv in grads.reshape(-1))
+  case.record('kernel-gradient-independent-of-kernel', 'sat' if occurs else 'unsat', kind='structural', witness={}, replay=None,
+              sig=dict(query='independent', layer='lattice-list'))
+  # differentiable points: off the grid lines (which include the clipping kinks 0 and size-1), inside a box around the lattice
+  assume = []
+  for d in range(rank):
+    assume.append(z3.And(x[0, d] > -1, x[0, d] < sizes[d]))
+    assume += [x[0, d] != c for c in range(sizes[d])]
+  tot = 0
+  bad = []
+  for gv in grads.reshape(-1):
+    tot = sym.s_add(tot, gv)
+    bad.append(sym.s_cmp('lt', gv, 0))
+  bad.append(sym.NE(tot, 1))
+
+  def rp(m):
+    xn = core.model_np(m, x)
+    gr = np.asarray(tr.tf_run(xn, var_values={layer.kernel.ref(): core.model_np(m, K)})[0], dtype=np.float64).reshape(-1)
+    return dict(reproduced=bool(np.min(gr) < -1e-5 or abs(float(np.sum(gr)) - 1.0) > 1e-5), detail=dict(x=xn.tolist(), kernel_gradient=gr.tolist()))
+  case.solve('kernel-gradient-is-a-convex-weight-vector', core.any_of(bad), assumptions=assume, witness=dict(x=x, k=K), timeout=p.get('timeout', 90),
+             sig=dict(query='kernel-grad', layer='lattice-list'), inline_replay=rp, required=p.get('required', True))
+  return case
+
+
 def _kgrad_replay(m, tr, x, K, layer, kind, u0, kshape, p):
   xn = core.model_np(m, x) if kind != 'categorical' else np.asarray(x, dtype=object).astype(np.int64)
   grads, W = tr.tf_run(xn, var_values={layer.kernel.ref(): core.model_np(m, K)})
@@ -412,6 +463,8 @@ def cases(tier, seed):
   add('case_kernel_grad', layer='lattice', sizes=[2, 2], units=1)
   add('case_kernel_grad', layer='lattice', sizes=[3, 2], units=2, unit=1)
   add('case_kernel_grad', layer='lattice', sizes=[2, 2, 2], units=1)
+  add('case_kernel_grad_list', sizes=[2, 3])
+  add('case_kernel_grad_list', sizes=[3, 2, 2], required=False, timeout=120)
   add('case_kernel_grad_simplex', sizes=[3, 2])
   add('case_kernel_grad_simplex', sizes=[2, 2], clip=False)
   add('case_kernel_grad', layer='pwl', nk=3, units=1)
